@@ -3,6 +3,7 @@ package props
 import (
 	"fmt"
 	"os"
+	"time"
 
 	"github.com/openziti/storage/boltz"
 	"go.etcd.io/bbolt"
@@ -13,16 +14,20 @@ import (
 
 // C06 part (d): two stores joined ONLY by a ref-counted link collection (no plain link collection on either store).
 // After a committed delete the id occurs nowhere, and a re-created entity starts with a clean slate: incrementing a
-// link count from it works and gives both sides the count 1.
+// link count from it works and gives both sides the count 1. Each store also has a nullable unique index over a
+// NON-string field (int64 serial, datetime stamp): its entry is keyed by the stored bytes, not by text, and has to go
+// with the entity as well.
 const c06RcCases = 12
 
 func c06RcOnly(c *core.Ctx, idx int) {
 	r := c.Rand()
 	alphas := &schema.StoreDef{Type: "alphas", BasePath: []string{"stores"},
-		Fields: []schema.Field{{Name: "label", Kind: schema.KStr}, {Name: "betas", Kind: schema.KList, FK: "betas", Derived: true}},
+		Fields: []schema.Field{{Name: "label", Kind: schema.KStr}, {Name: "serial", Kind: schema.KI64}, {Name: "betas", Kind: schema.KList, FK: "betas", Derived: true}},
+		Unique: []schema.UniqueDef{{Field: "serial", Nullable: true}},
 		Links:  []schema.LinkDef{{Field: "betas", Target: "betas", TargetField: "alphas", RefCounted: true}}}
 	betas := &schema.StoreDef{Type: "betas", BasePath: []string{"stores"},
-		Fields: []schema.Field{{Name: "label", Kind: schema.KStr}, {Name: "alphas", Kind: schema.KList, FK: "alphas", Derived: true}},
+		Fields: []schema.Field{{Name: "label", Kind: schema.KStr}, {Name: "stamp", Kind: schema.KTime}, {Name: "alphas", Kind: schema.KList, FK: "alphas", Derived: true}},
+		Unique: []schema.UniqueDef{{Field: "stamp", Nullable: true}},
 		Links:  []schema.LinkDef{{Field: "alphas", Target: "alphas", TargetField: "betas", RefCounted: true}}}
 	sc := schema.Build([]*schema.StoreDef{alphas, betas})
 	path := c.TempFile("c06rc")
@@ -48,10 +53,30 @@ func c06RcOnly(c *core.Ctx, idx int) {
 			existed = st.Store.IsEntityPresent(tx, id)
 			return nil
 		})
+		typedValue := false
 		opErr := db.Update(nil, func(ctx boltz.MutateContext) error {
 			switch op {
 			case "create":
-				return st.Store.Create(ctx, &schema.Ent{Id: id, Typ: store, V: map[string]any{"label": fmt.Sprintf("l%d", step)}})
+				v := map[string]any{"label": fmt.Sprintf("l%d", step)}
+				// the typed unique value: mostly the id's own (so a re-created entity asks for the value its earlier
+				// incarnation held), sometimes the other entity's (a duplicate when that one exists), sometimes null
+				own := int64(7)
+				if id == ids[store][1] {
+					own = 1 << 40
+				}
+				switch x := r.Intn(6); {
+				case x == 0:
+					own = 7 + (1<<40 - own)
+				case x == 1:
+					own = -1
+				}
+				if store == "alphas" && own >= 0 {
+					v["serial"] = own
+				} else if own >= 0 {
+					v["stamp"] = time.Date(2020, 1, 1, 0, 0, 0, 0, time.UTC).Add(time.Duration(own%1000) * time.Hour)
+				}
+				typedValue = own >= 0
+				return st.Store.Create(ctx, &schema.Ent{Id: id, Typ: store, V: v})
 			case "inc":
 				_, err := rc.IncrementLinkCount(ctx.Tx(), []byte(id), []byte(oid))
 				return err
@@ -75,6 +100,9 @@ func c06RcOnly(c *core.Ctx, idx int) {
 			continue
 		}
 		c.Nontrivial("c06rc", op, store, existed)
+		if op == "create" && typedValue {
+			c.Count("creates_with_typed_unique_value", 1)
+		}
 		if op == "delete" && existed {
 			c.Count("rc_only_deletes_scanned", 1)
 			if hits := after.FindId(id); len(hits) > 0 {
